@@ -96,6 +96,7 @@ type Searcher struct {
 	remainingBlocksSorted []*block // Sorted by time as specified by sortMode.
 	didFirstFetch         bool
 	qsrs                  []*query.QuerySegmentRequest
+	fixedQSRs             bool // If true, qsrs was set by the creator; never reload all segments.
 	cutOffTimestampInMs   uint64
 	unprocessedQSRs       *list.List
 	processedBlocks       map[string]map[uint16]struct{}
@@ -196,6 +197,7 @@ func getSubsearchIfNeeded(searcher *Searcher) (*subsearch, error) {
 	subsearchers[0].qsrs = sortIndexQSRs
 	subsearchers[0].initUnprocessedQSRs()
 	subsearchers[1].qsrs = otherQSRs
+	subsearchers[1].fixedQSRs = true
 	subsearchers[1].initUnprocessedQSRs()
 	subsearchers[1].sortIndexState.forceNormalSearch = true
 	subsearchers[1].segEncToKeyBaseValue += uint32(len(sortIndexQSRs))
@@ -229,7 +231,9 @@ func (s *Searcher) Rewind() {
 	defer s.getBlocksLock.Unlock()
 
 	s.gotBlocks = false
-	s.qsrs = nil
+	if !s.fixedQSRs {
+		s.qsrs = nil
+	}
 	s.processedBlocks = nil
 	s.unprocessedQSRs = nil
 	s.gotAllSegments = false
@@ -294,7 +298,15 @@ func (s *Searcher) Fetch() (*iqr.IQR, error) {
 		// InitProgressForRRCCmd() initializes the progress with the correct
 		// total records.
 		if s.qsrs == nil || !s.didFirstFetch {
-			err := s.initializeQSRs()
+			var err error
+			if s.fixedQSRs {
+				// This searcher handles only the segments it was given (the
+				// segments lacking a sort index); the others are handled by
+				// its sibling.
+				err = s.sortQSRs()
+			} else {
+				err = s.initializeQSRs()
+			}
 			if err != nil {
 				s.getBlocksLock.Unlock()
 				return nil, utils.TeeErrorf("qid=%v, searcher.Fetch: failed to get and set QSRs: %v", s.qid, err)
@@ -1013,6 +1025,12 @@ func (s *Searcher) initializeQSRs() error {
 	}
 
 	s.qsrs = qsrs
+
+	return s.sortQSRs()
+}
+
+func (s *Searcher) sortQSRs() error {
+	qsrs := s.qsrs
 
 	switch s.sortMode {
 	case anyOrder:
